@@ -12,7 +12,7 @@ echo "APPLY=ok ($(git diff --stat | tail -1))"
 export GOFLAGS=-mod=mod GOPROXY=off GOSUMDB=off GOTOOLCHAIN=local GOWORK=off
 if ! go build ./... 2>/tmp/seed-build.log; then echo "BUILD=failed"; head -5 /tmp/seed-build.log; fi
 OUT=$(mktemp -d)
-/verif/bin/spycheck -verif /verif -repo /repo -prop all -out "$OUT" 2>&1 | grep -E "^(VIOLATION|UNDECIDED|  C[0-9][0-9]\.R|checker panic)" | cut -c1-300
+/verif/bin/spycheck -verif /verif -repo /repo -prop all -out "$OUT" 2>&1 | grep -E "^(VIOLATION|UNDECIDED|  C[0-9][0-9]\.[RE]|checker panic)" | cut -c1-300
 rm -rf "$OUT"
 git reset -q --hard HEAD
 git status --porcelain | grep -v "^??" | head -3
